@@ -1,6 +1,6 @@
 (* C14 — property theorems.  Statements only; proofs are in Proofs.v. *)
 From Coq Require Import List NArith ZArith QArith Qabs Bool.
-From FV.C14 Require Import Model Proofs.
+From FV.C14 Require Import Model Proofs CaseFold.
 Import ListNotations.
 
 (* Distinct item names are never written to the same file: the file-name
@@ -9,6 +9,13 @@ Theorem filename_injective : forall (s s' suffix : str),
   string_to_filename s suffix = string_to_filename s' suffix -> s = s'.
 Proof. exact string_to_filename_inj. Qed.
 Print Assumptions filename_injective.
+
+(* ... even on a file system that ignores (ASCII) case: names that differ only by case get file
+   names that differ by more than case. *)
+Theorem filename_injective_ignoring_case : forall (s s' suffix : str),
+  fold_case (string_to_filename s suffix) = fold_case (string_to_filename s' suffix) -> s = s'.
+Proof. exact filename_injective_casefold. Qed.
+Print Assumptions filename_injective_ignoring_case.
 
 (* No reserved character survives into the file name (other than the '%' and
    '^' the scheme itself introduces), so the name is valid on every platform
